@@ -648,6 +648,21 @@ class World:
                 if red.coeff(terms[i]) != (0 if i == j else cs[i])]
             if bad:
                 out.append((f"alias:subs:{e.kind}", f"subs({d}, 0) changed other terms: {bad}"))
+        # products: two distinct vectors never behave as one, even when their display names coincide
+        from symplyphysics.core.experimental.vectors import VectorCross, VectorDot
+        for i in range(len(terms)):
+            for j in range(i + 1, len(terms)):
+                u, v = terms[i], terms[j]
+                try:
+                    cr = VectorCross(u, v)
+                    dt = VectorDot(u, v)
+                except Exception:  # pylint: disable=broad-except
+                    continue
+                di, dj = (f"#{ents[k][0]}:{ents[k][1].kind}:{ents[k][1].display!r}" for k in (i, j))
+                if cr == 0:
+                    out.append(("alias:vector-product", f"cross({di}, {dj}) of two distinct vectors evaluates to 0"))
+                if not (dt.has(u) and dt.has(v)):
+                    out.append(("alias:vector-product", f"dot({di}, {dj}) of two distinct vectors evaluates to {dt}, which no longer mentions both"))
         out += self._print_chunks(terms, cs, [e for _, e in ents])
         return out
 
